@@ -621,7 +621,7 @@ def run(ctx):
                      why_fail=f"context `{cxt}`: a relative path computed from another node reaches a different node (or is absolute where it must be relative)")
     # the context recorded with a registered itext message (shared with C07.R2b): the owning element
     from . import c07 as _c07
-    src7 = next((r_ for r_ in _c07.run(ctx) if r_.rid == "C07.R2b"), None)
+    src7 = next((r_ for r_ in ctx.other(_c07) if r_.rid == "C07.R2b"), None)
     for o in (src7.obligations if src7 is not None else []):
         if o["construct"].endswith("output context"):
             o2 = dict(o)
@@ -665,7 +665,7 @@ def run(ctx):
     from .c08 import _take
     r9 = Rule("C03", "C03.R9", "references in a select-from-repeat filter keep their target", floor=5,
               necessary="a reference to a node outside the repeat that is cut after the repeat's path names no node")
-    _take(r9, _c09.run(ctx), "C09.R5", lambda c: c.startswith("select from repeat["))
+    _take(r9, ctx.other(_c09), "C09.R5", lambda c: c.startswith("select from repeat["))
     rules.append(r9)
     return rules
 
